@@ -161,8 +161,10 @@ class HistoryAcc(Acc):
         prefix = witness.get("_prefix")
         pub = {k: v for k, v in witness.items() if not k.startswith("_")}
         sig = (key, hkey)
+        # a history-/prefix-dependent classification is shared by all keys that fold into the same final key
+        coarse = ("coarse", witness.get("_pkey") or key, hkey)
         alone = witness.get("_alone") or hist[-1:]
-        mode = self._cls.get(sig)
+        mode = self._cls.get(sig) or self._cls.get(coarse)
         if mode is None:
             if self._confirm(dict(pub, history=alone)):
                 mode = "alone"
@@ -175,6 +177,8 @@ class HistoryAcc(Acc):
                                    "nor by the shard prefix: %s" % (key, msg))
                 return
             self._cls[sig] = mode
+            if mode != "alone":
+                self._cls[coarse] = mode
         if mode == "alone":
             super().violation(key, dict(pub, history=alone), msg)
         elif mode == "history":
